@@ -95,7 +95,7 @@ prop("C09",
      exhaustive={"quick": False, "thorough": True},
      level_text="Lean theorems evaluated by the kernel over the control store regenerated from microprogram_ram_content.rs: the graph of (micro-address, instruction register) nodes over-approximates the real sequencer for every flag/ALU-condition/interrupt input (next_in_succs, step_in_succNodes: one executed edge of the data-path model moves along a graph edge), and the exploration is SOUND for executions (completes_sound / visited_sound: if the exploration of a node set completes within n levels then every execution of the micro-machine model from any visited node - any registers, flags, memory, ALU latch, interrupt flip-flop - reaches a fetch word or the second-opcode word within n steps over programmed words only); every defined first byte and every defined second byte reaches the next fetch within 15 (+3+1 for prefixes) steps visiting programmed words only, the only cycles are the MUL and DIV loops (single back edge each), the undefined first bytes 0x4C-0x4F/0xE0-0xEF form closed fetch-free sets, completes_iff; page_B / page_C (from C01's loop lemmas): every MUL and DIV opcode reaches the next fetch for all operand values, zero divisor included; the next-address function of signals.rs is tied to the model by block hashes over its whole domain (512 x 256 x 16 x 16; quick tier: all programmed addresses + a quarter of the rest), and every opcode is run on the real machine",
      technique="Lean 4 kernel evaluation (decide +kernel) of graph properties over the translated control store + exhaustive differential of the next-address function + opcode enumeration on the real machine",
-     rule="nexthash: FNV hash of next_microprogram_address over 256 IR x 16 flag x 8 ALU-condition x 2 interrupt values per micro-address, real Signals vs model; spec.flow: every first byte (x every defined second byte and a sample of undefined ones for prefixes) executed from a forced boundary with random registers/flags/pending interrupt, observing zero words, page escapes, completion and micro-step count; a CPU reset after 1..9 edges of every defined opcode (spec.flowreset: first fetch reached in one step over page 0); all 32 MUL/DIV opcodes with boundary operands (0, 1, 2, 0x80, 0xFF) in R0-R2 in every combination; distinct = distinct (opcode, second byte, registers, interrupt) tuples",
+     rule="nexthash: FNV hash of next_microprogram_address over 256 IR x 16 flag x 8 ALU-condition x 2 interrupt values per micro-address, real Signals vs model; spec.flow: every first byte (x every defined second byte and a sample of undefined ones for prefixes) executed from a forced boundary with random registers/flags/pending interrupt, observing zero words, page escapes, completion and micro-step count; a third of the runs reach the instruction through a RETI executed with a request raised just before it (flip-flop set, status bits cleared); a CPU reset after 1..9 edges of every defined opcode (spec.flowreset: first fetch reached in one step over page 0); all 32 MUL/DIV opcodes with boundary operands (0, 1, 2, 0x80, 0xFF) in R0-R2 in every combination; distinct = distinct (opcode, second byte, registers, interrupt) tuples",
      explanation="MUL/DIV loop termination for all 65 536 operand pairs: C01's page_B / page_C (every MUL and DIV opcode reaches the next fetch from any state, by induction over the loop) are part of this property's theorem list; the harness runs MUL/DIV with random and with boundary operands (0, 1, 2, 0x80, 0xFF in every register)",
      assumptions=["level interrupts are constantly absent (Bus::get_level_interrupt returns None in the source)"],
      )
@@ -108,7 +108,7 @@ prop("C07",
      harness="c07",
      level_text="Lean theorems for every machine state (hence after every history): cpuReset_eq / masterReset_eq list every field that is reset to its power-on value and every field that is kept; load_eq (RAM = image ++ zeros, limits, NOSET/AUTO rules); load_history_independent + clockEdge_congr + runs_agree: after a load any machine agrees with a newly created one up to the board, MISR/USR/UART bytes and step mode, and this agreement is preserved by every clock edge whose bus access is confined to RAM and 0xFC-0xFF, so such programs run cycle-for-cycle alike (induction over edges). Tied to the code by random histories with full dumps; resets after every prefix and reload-vs-fresh lock-step runs are also checked against the specification directly",
      technique="Lean 4 field-wise equalities + bisimulation proof (projection invariant preserved by clockEdge) + differential histories, reset-after-every-prefix and reload-vs-fresh lock-step",
-     rule="histories of 20-220 ops from {load, edge, clock, irq, cont, resets, input/board setters, direct bus writes, program-driven port writes to 0xF0-0xFB}; loads as spec.load (the limits a load leaves behind vs the property: program's stack size unless NOSET, program size / AUTO = image length / unchanged for NOSET); after (nearly) every prefix: spec.cpureset and spec.masterreset on a copy (reset fields printed, kept fields compared before/after); 3 follow-up programs confined to RAM/0xFC-0xFF per history reloaded and compared edge by edge (600 edges) with a newly created machine carrying the same limits; distinct = distinct op lines",
+     rule="histories of 20-220 ops from {load, edge, clock, irq, cont, resets, input/board setters, direct bus writes, program-driven port writes to 0xF0-0xFB}; loads as spec.load (the limits a load leaves behind vs the property: program's stack size unless NOSET, program size / AUTO = image length / unchanged for NOSET); after (nearly) every prefix: spec.cpureset and spec.masterreset on a copy (reset fields printed, kept fields compared before/after); 3 follow-up programs confined to RAM/0xFC-0xFF per history reloaded and compared edge by edge (600 edges) and key clock by key clock in assembly-step mode (80 steps) with a newly created machine carrying the same limits; histories ending in a detected micro-program hang followed by load / master reset; distinct = distinct op lines",
      explanation="Board::master_reset leaves the comparator status bits stale until the next update; neither C07 nor C14 quantifies over that",
      assumptions=["`confined` programs are generated from direct-addressing templates; the theorem covers any program whose accesses are confined"],
      )
@@ -177,7 +177,7 @@ prop("C04",
      exhaustive={"quick": False, "thorough": False},
      level_text="Lean theorems over the regenerated control store: a key press sets the flip-flop iff MICR's key-edge enable bit is set and otherwise only sets a status bit (trigger_*); the flip-flop is untouched by every micro-step that is not an end word (sampled_only_at_end; instr_to_end: for every covered instruction and ANY state of the flip-flop the instruction runs to its end word with exactly Isa.step's effect) - so a request raised in any cycle is looked at only between two instructions; int_taken: with the request pending and IEF set at the end of the instruction the machine reaches, 9 micro-steps later, the first boundary of the routine in state intEntry(result) (FR and next address pushed, upper FR bits cleared, PC = 2) with the flip-flop clear (hence once), with IEF clear the request is dropped; press_any_cycle: the same when the request is raised after ANY number k of executed micro-steps of the instruction (the flip-flop is set between two edges, which is what a key press does) - press_commutes / step_withPend / nextAddr_indep: the flip-flop is read only by words that sample it, setting it commutes with every other step, so the run equals the run with the request pending from the start; reti_entry_roundtrip (specification level): RETI on the stack left by intEntry restores PC, FR incl. IEF and SP. instr_to_end covers every defined instruction incl. MUL and DIV (their loops never touch the flip-flop). Every-cycle sweeps on the real machine check count and transparency",
      technique="Lean 4 symbolic execution of the interrupt-entry routine generic in the end word + per-instruction end-word lemmas (generated) + every-clock-cycle trigger sweep on the real machine",
-     rule="generated main programs (LDSP, MICR enable + EI at a random point, 6-15 random ALU/MUL/DIV/PUSH/POP/memory/output/CMP instructions, optionally DI..EI sections, CALL/RET, final spin loop) with a register-preserving interrupt routine that bumps a RAM counter; the key is pressed at EVERY clock cycle 0..T+6 (one run per cycle): expected count = (MICR key enable at the trigger cycle) AND (IEF as left by the first end word after the trigger), and the final registers, flags, SP, PC, outputs and RAM (without the counter and the dead stack area) must equal the uninterrupted run; pairs of triggers in a 12/40-cycle window: count <= 2 and transparency; a key pressed while the program waits in STOP (0/1/5 edges after the stop, then CONTINUE): the same count rule and transparency; the model machine is compared at the trigger and 120 edges after the sampling point; distinct = (program, cycle)",
+     rule="generated main programs (LDSP, MICR enable + EI at a random point, 6-15 random ALU/MUL/DIV/PUSH/POP/memory/output/CMP instructions, optionally DI..EI sections, CALL/RET, final spin loop) with a register-preserving interrupt routine that bumps a RAM counter; the key is pressed at EVERY clock cycle 0..T+6 (one run per cycle): expected count = (MICR key enable at the trigger cycle) AND (IEF as left by the first end word after the trigger), and the final registers, flags, SP, PC, outputs and RAM (without the counter and the dead stack area) must equal the uninterrupted run; pairs of triggers in a 12/40-cycle window: count <= 2 and transparency; a second press while the routine of the first one runs, at every cycle from the entry to well after RETI; a third of the programs use a one-shot routine that clears the enable bit by a read-modify-write of 0xF9; spec.micr after every press (the enable mask vs the model bus); a key pressed while the program waits in STOP (0/1/5 edges after the stop, then CONTINUE): the same count rule and transparency; the model machine is compared at the trigger and 120 edges after the sampling point; distinct = (program, cycle)",
      explanation="`enabled` in the property means: enable bit set when the key is pressed and IEF set at the next sampling point; EI, DI and RETI end without sampling (the request stays pending over them)",
      assumptions=["level interrupts absent (stubbed to None in bus.rs)"],
      )
@@ -205,7 +205,7 @@ prop("C02",
      harness="c02",
      level_text="Lean refinement theorem compile_eq_ref: the one-pass translator with label placeholders (model of compiler.rs: 8-bit address counter, ByteOrLabel/LabelFn placeholders, final substitution, last-definition-wins table keyed by lower-cased names) produces exactly the two-pass reference assembly (pass 1: layout from address 0 and symbol table; pass 2: documented encoding per instruction form with mode/register fields, operand bytes, big-endian .DW, zero fill for .ORG/.BYTE, relative offset target-(addr+2) mod 256, settings) for every program whose lines are shorter than 256 bytes; bols_encode / bols_length cover every instruction form and operand shape by case analysis. The model is tied to the Rust translator by differential runs on generated programs (the AST is serialised from the real parser's output), and the real byte code is compared with the reference directly",
      technique="Lean 4 refinement proof (fold invariant over lines, case analysis over all instruction forms) + differential compile on generated programs against model and reference assembler",
-     rule="generated (AST, text) pairs: random instruction forms x operand shapes x registers, directives (.ORG forward, .BYTE, .DB, .DW, .EQU, *STACKSIZE, *PROGRAMSIZE), forward/backward/mixed-case label references, later redefinitions; text rendered with random case, blanks, radix and leading zeros; the real parser's AST must equal the generated AST, then `compile` (model) and `spec.encode` (reference) are compared with the real Translator::compile output line by line; distinct = distinct serialised ASTs",
+     rule="generated (AST, text) pairs: random instruction forms x operand shapes x registers, directives (.ORG forward, .BYTE, .DB, .DW, .EQU, *STACKSIZE, *PROGRAMSIZE), forward/backward/mixed-case label references, later redefinitions, families of label names with a common stem of 7..40 characters; text rendered with random case, blanks, radix and leading zeros; the real parser's AST must equal the generated AST, then `compile` (model) and `spec.encode` (reference) are compared with the real Translator::compile output line by line; distinct = distinct serialised ASTs",
      explanation="the encoder is not yet checked against the CPU's decoder by a theorem (Isa.exec of the encoded bytes); that link is exercised by C01's search on assembled programs only",
      assumptions=["programs whose image fits the 240-byte RAM (the property's quantifier)"],
      )
